@@ -2083,7 +2083,16 @@ func (f *slFn) forStmt(x *ast.ForStmt) {
 		f.fail("loop form")
 	}
 	w, u := bitsOf(f.g.info.TypeOf(iv))
-	if !u || w != 64 {
+	signedConst := false
+	if !u {
+		// a signed counter between constant, non-negative bounds: no wrap-around to think about
+		_, okA := f.constVal(init.Rhs[0])
+		_, okB := f.constVal(cond.Y)
+		if !okA || !okB {
+			f.fail("loop with a signed counter and non-constant bounds")
+		}
+		signedConst = true
+	} else if w != 64 {
 		f.fail("loop counter type")
 	}
 	a := f.natExpr(init.Rhs[0])
@@ -2098,7 +2107,11 @@ func (f *slFn) forStmt(x *ast.ForStmt) {
 		}
 		return true
 	})
-	fnName, vs := f.loopBody(x.Body.List, x.Pos(), func() *slVar { return f.declare(iv, kNat, -1) }, true)
+	fnName, vs := f.loopBody(x.Body.List, x.Pos(), func() *slVar {
+		v := f.declare(iv, kNat, -1)
+		v.nonneg = signedConst
+		return v
+	}, true)
 	for _, v := range vs {
 		for o, vv := range f.vars {
 			if vv == v && bound[o] {
@@ -2126,6 +2139,9 @@ func (f *slFn) forStmt(x *ast.ForStmt) {
 	prim := "Prim.forUpTo"
 	if cond.Op == token.LSS {
 		prim = "Prim.forBelow"
+	} else if signedConst {
+		prim = "Prim.forBelow" // i <= b on constants: i < b+1
+		b = fmt.Sprintf("(%s + 1)", b)
 	}
 	f.emit("let %s ← %s %s %s %s %s", patOf(vs), prim, slAtom(a), slAtom(b), tupleOf(vs), fnName)
 }
@@ -2192,12 +2208,13 @@ func (f *slFn) rangeStmt(x *ast.RangeStmt) {
 		if !isC {
 			f.fail("range over a non-constant integer")
 		}
+		// the same form as `for i := 0; i < N; i++`
 		fnName, vs := f.loopBody(x.Body.List, x.Pos(), func() *slVar {
 			v := f.declare(x.Key.(*ast.Ident), kNat, -1)
 			v.nonneg = true
 			return v
-		}, false)
-		f.emit("let %s ← (List.range %s).foldlM %s %s", patOf(vs), n, fnName, tupleOf(vs))
+		}, true)
+		f.emit("let %s ← Prim.forBelow 0 %s %s %s", patOf(vs), n, tupleOf(vs), fnName)
 	case k == kBytes && x.Value == nil && x.Key != nil && !isBlank(x.Key):
 		// for i := range s: the length is read once, before the first iteration
 		b, _ := f.bytesExpr(x.X)
